@@ -21,7 +21,9 @@ import pathlib
 import re
 import functools
 import contextlib
-from collections.abc import Callable, Iterator
+import asyncio
+from collections.abc import Awaitable, Callable, Coroutine, Generator, Iterator
+from typing import Generic
 from typing import Any, ClassVar, Final, Literal, NamedTuple, NewType, Optional, TypeAlias, TypedDict, TypeVar, cast, overload
 
 
@@ -43,6 +45,7 @@ UserId = NewType("UserId", int)
 IntAlias: TypeAlias = int
 ListAlias = list[int]
 T = TypeVar("T")
+K = TypeVar("K")
 
 v_bool: bool = True
 v_int: int = 1
@@ -91,6 +94,28 @@ def f_opt() -> int | None: ...
 def f_nt() -> NT: ...
 def f_untyped(): ...
 async def co_int() -> int: ...
+async def co_str() -> str: ...
+async def co_list() -> list[int]: ...
+class Fetch(Awaitable[bytes], Generic[K]):          # one type parameter, which is NOT what awaiting yields
+    def __await__(self) -> Generator[Any, None, bytes]: ...
+class Job(Generic[K]):                              # awaitable by protocol only
+    def __await__(self) -> Generator[Any, None, int]: ...
+class Plain:
+    def __await__(self) -> Generator[Any, None, str]: ...
+class Wrap(Awaitable[K]):                           # the parameter IS the result
+    def __await__(self) -> Generator[Any, None, K]: ...
+class TaskOfStr(asyncio.Task[str]): ...
+aw_task: asyncio.Task[int]
+aw_task_str: asyncio.Task[str]
+aw_future: asyncio.Future[str]
+aw_awaitable: Awaitable[int]
+aw_coroutine: Coroutine[Any, Any, str]
+aw_fetch_str: Fetch[str]
+aw_fetch_int: Fetch[int]
+aw_job_str: Job[str]
+aw_plain: Plain
+aw_wrap_str: Wrap[str]
+aw_subtask: TaskOfStr
 def generic(x: T) -> T: ...
 @overload
 def ov(x: int) -> int: ...
@@ -218,7 +243,8 @@ CONTEXTS = [
 CONTEXT_OPERANDS = {
     "isinstance-int": ["v_obj", "n1"], "isinstance-bool": ["v_int"], "not-none": ["v_opt"], "truthy": ["v_union"], "unreachable": ["v_int", "v_str", "undefined_name"],
     "function": ["p_int", "p_any", "p_def", "args", "kw", "args[0]"], "redefinition": ["r"], "loop": ["i_loop"], "with": ["fh", "fh.read()"], "except": ["exc", "exc.args"],
-    "async": ["await co_int()", "co_int()"], "match": ["m_int", "v_union"],
+    "async": ["await co_int()", "co_int()", "await co_str()", "await co_list()", "await aw_task", "await aw_task_str", "await aw_future", "await aw_awaitable",
+              "await aw_coroutine", "await aw_fetch_str", "await aw_fetch_int", "await aw_job_str", "await aw_plain", "await aw_wrap_str", "await aw_subtask", "aw_task"], "match": ["m_int", "v_union"],
 }
 
 
